@@ -134,6 +134,8 @@ pub enum TOp {
   UnsubSubject,
   /// `retain()` followed by `len()` on the subject (plain subject family only)
   Retain,
+  /// `is_closed()` asked on a clone of the subject itself (plain subject family only)
+  SubjectClosed,
 }
 
 #[derive(Clone, Debug, PartialEq, Eq, Hash)]
@@ -287,6 +289,12 @@ pub fn run_scen(s: &Scen, seed: u64, strategy: Strategy) -> Outcome {
               h.retain();
               let n = rxrust::subject::SubjectSize::len(&h);
               log.mark(CALL + ti as u32, "len", n as i64);
+            }
+          }
+          TOp::SubjectClosed => {
+            if kind == Kind::Subject {
+              let c = hot[0].is_closed();
+              log.mark(CALL + ti as u32, "subject_closed", c as i64);
             }
           }
         }
@@ -965,6 +973,15 @@ pub fn terminal_consistency(o: &Outcome) -> Option<(String, serde_json::Value)> 
       ));
     }
   }
+  // the subject's own handle said "closed": nothing may be delivered through it afterwards
+  if let Some(c) = o.evs.iter().find(|e| matches!(e.k, K::Mark("subject_closed", 1))) {
+    if let Some(late) = o.evs.iter().find(|e| ids.contains(&e.id) && e.seq > c.seq && matches!(e.k, K::N(_))) {
+      return Some((
+        "delivery_after_subject_reported_closed".into(),
+        json!({"why": format!("is_closed() on the subject returned true at stamp {}; probe {} received {:?} at stamp {}", c.seq, late.id, late.k, late.seq)}),
+      ));
+    }
+  }
   let term_ret = o.evs.iter().filter(|e| matches!(e.k, K::Mark("term_ret", _))).map(|e| e.seq).min();
   if let Some(tr) = term_ret {
     // subscriptions: probe id -> unsubscribe call stamp (if any)
@@ -1187,6 +1204,7 @@ fn script(r: &mut Rng, n_hot: usize, allow_sub: bool, allow_term: bool, max: usi
       3 => TOp::Unsub(r.below(2)),
       4 if allow_sub && allow_term && r.chance(1, 2) => TOp::UnsubSubject,
       5 if allow_sub && r.chance(1, 2) => TOp::Retain,
+      6 if allow_sub && r.chance(1, 2) => TOp::SubjectClosed,
       _ => TOp::Next(r.below(n_hot)),
     })
     .collect()
@@ -1768,6 +1786,12 @@ pub fn run_scen_free_mode(s: &Scen, mode: u8, seed: u64) -> Outcome {
               h.retain();
               let n = rxrust::subject::SubjectSize::len(&h);
               log.mark(CALL + ti as u32, "len", n as i64);
+            }
+          }
+          TOp::SubjectClosed => {
+            if kind == Kind::Subject {
+              let c = hot[0].is_closed();
+              log.mark(CALL + ti as u32, "subject_closed", c as i64);
             }
           }
           TOp::Subscribe | TOp::Peek => {}
